@@ -138,7 +138,15 @@ def _observe(obj):
     except Exception as e:  # noqa: BLE001
         return {"dump": f"model_dump raised {type(e).__name__}", "fs": [], "viol": "malformed-dump"}
     try:
-        dump = mc.canon(mc.enc(d))
+        # a Python int sitting in a float field of an axis (compute_and_add_axis_min_max stores `.item()` of an
+        # integer column without validation) equals the float of the same value for Python and for JSON readers
+        # of a number|null field: observe it as that float
+        dn = d
+        if isinstance(d.get("axes"), list):
+            dn = {**d, "axes": [{k: (float(v) if k in ("min", "max", "scale", "offset") and isinstance(v, int)
+                                     and not isinstance(v, bool) and abs(v) <= 2 ** 53 else v) for k, v in a.items()}
+                                if isinstance(a, dict) else a for a in d["axes"]]}
+        dump = mc.canon(mc.enc(dn))
     except Exception as e:  # noqa: BLE001
         dump = f"not JSON-native: {type(e).__name__}: {e}"
     try:
@@ -247,8 +255,8 @@ def model_request(case):
             ops.append(o)
         elif k == "addProps":
             ops.append({"k": k, "props": [mc.enc(p) for p in op["props"]], "ctype": op["ctype"]})
-        else:
-            ops.append({"k": "copy"})  # not modelled (compute_and_add_axis_min_max): such histories are judged by the specification only
+        elif k == "minmax":
+            ops.append({"k": "minMax", "cols": [[name, col] for name, col in minmax_cols(op["props"])]})
     return {"op": "run", "env": mc.make_env(case), "init": mi, "ops": ops}
 
 
@@ -357,6 +365,27 @@ def single_op_cases():
     return out
 
 
+def minmax_cols(props):
+    """what compute_and_add_axis_min_max sees of each column, reduced independently of the implementation: the
+    present entries are selected in plain Python, numpy is used only for the reduction itself (NaN propagation, +-0)"""
+    import numpy as np
+
+    cols = []
+    for name, p in props.items():
+        vals, miss = p["values"], p.get("missing")
+        if len(vals) == 0:
+            cols.append((name, {"t": "none"}))
+            continue
+        present = [v for i, v in enumerate(vals) if miss is None or not miss[i]]
+        if not present:
+            cols.append((name, {"t": "all"}))
+            continue
+        arr = np.asarray(present, dtype=p.get("dtype", "float64"))
+        lo, hi = float(np.min(arr).item()), float(np.max(arr).item())
+        cols.append((name, {"t": "b", "lo": mc.enc(lo), "hi": mc.enc(hi), "wf": not lo > hi}))
+    return cols
+
+
 def minmax_props(rng, names, n=None, mask=None, junk=None, dtype=None):
     """node property columns for compute_and_add_axis_min_max: per axis a value column and a missing mask
     (none / some / all entries missing) whose masked entries hold junk placeholders (extreme, NaN, inf)"""
@@ -403,17 +432,17 @@ def minmax_cases(rng):
                             continue
                         out.append({"init": {"k": "parse", "doc": base, "via": "validate"},
                                     "ops": [{"k": "minmax", "props": minmax_props(rng, names, n, mask, junk, dtype)}],
-                                    "tag": "helper", "gray": True})
+                                    "tag": "helper"})
         if names:
             # the all-missing column with *descending* placeholders, and a column that is absent
             out.append({"init": {"k": "parse", "doc": base, "via": "validate"},
                         "ops": [{"k": "minmax", "props": {nm: {"values": [5.0, 1.0, 3.0], "dtype": "float64", "missing": [True, True, True]}
-                                                          for nm in names}}], "tag": "helper", "gray": True})
+                                                          for nm in names}}], "tag": "helper"})
             out.append({"init": {"k": "parse", "doc": base, "via": "validate"},
                         "ops": [{"k": "minmax", "props": {nm: {"values": [5, 1, 3], "dtype": "int64", "missing": [True, False, True]}
-                                                          for nm in names}}], "tag": "helper", "gray": True})
+                                                          for nm in names}}], "tag": "helper"})
             out.append({"init": {"k": "parse", "doc": base, "via": "validate"},
-                        "ops": [{"k": "minmax", "props": minmax_props(rng, names[1:], 3)}], "tag": "helper", "gray": True})
+                        "ops": [{"k": "minmax", "props": minmax_props(rng, names[1:], 3)}], "tag": "helper"})
     return out
 
 
@@ -566,9 +595,11 @@ def random_history(rng, cat, nops):
             if invalid:
                 ops.extend(_follow_ups(rng, f, v, names, hinted))
         elif r < 0.59:
-            # compute_and_add_axis_min_max over the (shadowed) declared axes; not modelled -> specification only
-            ops.append({"k": "minmax", "props": minmax_props(rng, names if names is not None else rng.sample(mc.NAMES, 2))})
-            gray = True
+            # compute_and_add_axis_min_max over the (shadowed) declared axes, sometimes with a column missing
+            cols_for = list(names) if names is not None else rng.sample(mc.NAMES, 2)
+            if cols_for and rng.random() < 0.12:
+                cols_for = cols_for[1:]
+            ops.append({"k": "minmax", "props": minmax_props(rng, cols_for + (rng.sample(mc.NAMES, 1) if rng.random() < 0.3 else []))})
         elif r < 0.65:
             ops.append({"k": "copy", "how": rng.choice(["model_copy", "deepcopy", "model_copy_deep", "copy_copy", "pickle"])})
         elif r < 0.78:
@@ -736,9 +767,10 @@ def run(ck: common.Check):
     cases = list(corpus())
     cases += single_op_cases()
     cases += minmax_cases(ck.rng)
-    cases += after_rejection_cases()
+    arc = after_rejection_cases()
+    cases += arc if not ck.quick else [c for i, c in enumerate(arc) if i % 2 == ck.seed % 2 or c["ops"][0].get("f") in ("axes", "display_hints")]
     cat = mc.catalogue()
-    nrand = 2500 if ck.quick else 30000
+    nrand = 2000 if ck.quick else 30000
     for _ in range(nrand):
         cases.append(random_history(ck.rng, cat, ck.rng.randint(1, 8)))
     ck.extra["exhaustive_single_ops"] = len(cases) - nrand
@@ -778,7 +810,6 @@ def run(ck: common.Check):
                     lim.corr_broken("C07:lean-spec-on-observed-dump(decode)", cases[idx], o["viol"], sv)
                 continue
             n_s += 1
-            # (histories through the unmodelled helper may carry Python ints in float fields: verdict only)
             if sv["viol"] != o["viol"] or (not cases[idx].get("gray") and mc.canon(sv["redump"]) != o["dump"]):
                 lim.corr_broken("C07:lean-spec-on-observed-dump", cases[idx], {"viol": o["viol"]}, {"viol": sv["viol"]})
         ck.extra["lean_spec_evaluations_on_observed_dumps"] = n_s
@@ -796,6 +827,19 @@ def run(ck: common.Check):
         if model is not None and not c.get("gray"):
             compare(lim, c, im, model[idx])
     ck.extra["steps_observed"] = nsteps
+    # the precondition of the minMax operation (numpy: min of a non-empty selection is not greater than its max)
+    n_cols = n_bad = 0
+    for r in reqs:
+        for o in r.get("ops", []):
+            if o.get("k") == "minMax":
+                for _name, col in o["cols"]:
+                    if col["t"] == "b":
+                        n_cols += 1
+                        if not col["wf"]:
+                            n_bad += 1
+    ck.extra["minmax_bounds_columns_checked_wellformed"] = n_cols
+    if n_bad:
+        ck.broken.append({"what": "assumption numpy min <= max of one selection", "detail": f"{n_bad} of {n_cols} reduced columns have lo > hi"})
     ck.extra["env"] = {"default_version": mc.default_version(), "default_version_matches_pattern": mc.pattern_ok(mc.default_version()),
                        "offset_length_checked": mc._OFFCHK[0], "version_pattern": mc.version_pattern()}
     if not mc.pattern_ok(mc.default_version()):
